@@ -165,8 +165,8 @@ theorem block_defines (E : Ext) (cfg : Cfg) (it : RustItem) (st : St) (b : Str) 
     obtain ⟨⟨ty, st2⟩, _, hpa⟩ := bindOk hpa
     cases hpa
     simp only [pyDefs, renderAlias, List.append_assoc]
-    have := definesHead_plain (n := a.id.renamed) [] (bracketSuffix a.genericTypes ++ (s%" = " ++ (ty ++ (s%"\n\n" ++ docstring 0 a.comments))))
-      lineStart_nil (nameEnd_bracketSuffix _ (nameEnd_cons _ (by simp [delims])))
+    have := definesHead_plain (n := a.id.renamed) [] (s%" = " ++ (ty ++ (s%"\n\n" ++ docstring 0 a.comments)))
+      lineStart_nil (nameEnd_cons _ (by simp [delims]))
     rw [List.nil_append] at this
     exact splitsInto_single this
   | const c =>
